@@ -10,7 +10,7 @@
  *
  * dumps: records joined by ';' in document order (schema: lys_getnext order of the modules of the case, an RPC / action has
  *   its input children, for type y its output children):   <depth>,<module>,<name>,<kind>[,<value-hex>]
- *   kind: c inner node | L<keyless><config-w> list | T<config-w> leaf-list | f<key> leaf | a anydata / anyxml
+ *   kind: c<presence> container (rpc, action, notification: c1) | L<keyless><config-w> list | T<config-w> leaf-list | f<key> leaf | a anydata / anyxml
  *   an empty dump is "-"
  * queries and answers:
  *   P                      -> P:<hex lyd_path(LYD_PATH_STD) of every node, document order, joined by ','>
@@ -52,8 +52,12 @@ put_kind(const struct lysc_node *s)
     case LYS_ANYXML:
         printf("a");
         break;
+    case LYS_CONTAINER:
+        printf("c%d", (s->flags & LYS_PRESENCE) ? 1 : 0);
+        break;
     default:
-        printf("c");
+        /* rpc, action, notification: never a default node */
+        printf("c1");
         break;
     }
 }
@@ -152,6 +156,9 @@ dfs_next(struct lyd_node *n)
     return NULL;
 }
 
+/* the empty value is passed as NULL (an anydata node is then created with an empty tree; terms take NULL as the empty string) */
+#define VAL(v) (((v) && (v)[0]) ? (v) : NULL)
+
 static void
 put_rc(LY_ERR rc)
 {
@@ -184,6 +191,11 @@ query(struct ly_ctx *ctx, struct lyd_node *tree, int out, char *q)
         }
         return;
     }
+    if (q[0] == 'W') {
+        /* well-formedness flags the model has to compute: echoed */
+        printf("%s", q);
+        return;
+    }
     colon = strchr(q + 2, ':');
     if (colon) {
         *colon = 0;
@@ -214,7 +226,7 @@ query(struct ly_ctx *ctx, struct lyd_node *tree, int out, char *q)
         }
         break;
     case 'N':
-        rc = lyd_new_path2(NULL, ctx, path, val, val ? strlen(val) : 0, LYD_ANYDATA_STRING, nopts, &np, &nn);
+        rc = lyd_new_path2(NULL, ctx, path, VAL(val), val ? strlen(val) : 0, LYD_ANYDATA_STRING, nopts, &np, &nn);
         if (rc) {
             put_rc(rc);
         } else {
@@ -236,7 +248,7 @@ query(struct ly_ctx *ctx, struct lyd_node *tree, int out, char *q)
             printf("-");
             break;
         }
-        rc = lyd_new_path2(tree, NULL, path, val, val ? strlen(val) : 0, LYD_ANYDATA_STRING, nopts, &np, &nn);
+        rc = lyd_new_path2(tree, NULL, path, VAL(val), val ? strlen(val) : 0, LYD_ANYDATA_STRING, nopts, &np, &nn);
         if (rc) {
             put_rc(rc);
         } else if (!np) {
